@@ -263,6 +263,8 @@ type genCase struct {
 	kind    string
 	mut     string
 	signer  int // key index that signs (ground truth, informational)
+	chunks  [][]byte // PUT path: explicit chunking of `stream` (nil = random chunking)
+	forced  bool     // case of the fixed matrix (kind and mutation chosen by the runner)
 }
 
 func randPayload(g *rng, n int) []byte {
@@ -328,9 +330,13 @@ func seal(o *object.Object, csPayload []byte, size uint64) {
 }
 
 // base object of the given kind; returns the object (sealed, signed), stream bytes
-func (u *universe) genCase(g *rng) *genCase {
+func (u *universe) genCase(g *rng) *genCase { return u.genCaseF(g, "", "") }
+
+// genCaseF: as genCase, with the kind and/or the mutation fixed by the caller (the same
+// random draws are consumed either way).
+func (u *universe) genCaseF(g *rng, forceKind, forceMut string) *genCase {
 	seenIDs = nil
-	c := &genCase{w: newWorld()}
+	c := &genCase{w: newWorld(), forced: forceKind != "" || forceMut != ""}
 	w := c.w
 	w.Epoch = uint64(5 + g.n(10))
 	w.MaxSize = uint64(24 + g.n(40))
@@ -341,6 +347,9 @@ func (u *universe) genCase(g *rng) *genCase {
 	scheme := g.n(3)
 	kinds := []string{"regular", "regular", "regular", "session", "tomb", "lock", "link", "child_first", "child_mid", "child_last", "v1split", "ecpart", "ecpart", "nested", "ec_cnr_regular"}
 	c.kind = kinds[g.n(len(kinds))]
+	if forceKind != "" {
+		c.kind = forceKind
+	}
 	payload := randPayload(g, g.n(int(w.MaxSize)+1))
 	if g.p(1, 10) {
 		payload = nil
@@ -477,18 +486,18 @@ func (u *universe) genCase(g *rng) *genCase {
 		w.Rules = []ecRule{{2, 1}}
 	}
 	if c.kind == "ecpart" {
-		return u.genECPart(g, c, cnr, signer)
+		return u.genECPart(g, c, cnr, signer, forceMut)
 	}
 	o.SetPayload(nil)
 	seal(o, payload, uint64(len(payload)))
 	signWith(o, u.keys[signer], scheme)
 	c.stream = payload
-	u.mutate(g, c, o, payload, signer, scheme)
+	u.mutate(g, c, o, payload, signer, scheme, forceMut)
 	return c
 }
 
 // mutate applies (usually) one mutation, re-sealing so that only the chosen field is wrong
-func (u *universe) mutate(g *rng, c *genCase, o *object.Object, payload []byte, signer, scheme int) {
+func (u *universe) mutate(g *rng, c *genCase, o *object.Object, payload []byte, signer, scheme int, forceMut string) {
 	w := c.w
 	reseal := func() {
 		cs, _ := o.PayloadChecksum()
@@ -504,8 +513,12 @@ func (u *universe) mutate(g *rng, c *genCase, o *object.Object, payload []byte, 
 		"sig_scheme", "sig_key_garbage", "sig_key_long", "sig_val_long", "sig_n3_session", "sig_unsupported", "tok_authkey", "tok_invalid", "tok_issuer", "tok_both",
 		"ec_attr_no_rules", "type_sg", "type_other", "sys_payload", "sys_assoc", "sys_no_exp", "hdr_big", "cnr_zero", "cnr_missing", "max_zero", "too_big",
 		"content_split", "content_tomb", "link_garbage", "link_empty", "link_no_first", "parent_attr", "parent_id", "parent_sig", "parent_owner",
-		"mid_no_prev", "link_parent_unsigned", "v1_first", "quota", "quota_err", "store_fail", "stream_more", "stream_less", "stream_diff", "hdr_payload"}
+		"mid_no_prev", "link_parent_unsigned", "v1_first", "quota", "quota_err", "store_fail", "stream_more", "stream_less", "stream_diff", "hdr_payload",
+		"link_empty_split", "sys_payload_tomb", "stream_plus1", "stream_exact1"}
 	m := muts[g.n(len(muts))]
+	if forceMut != "" {
+		m = forceMut
+	}
 	if c.mut != "" {
 		m = "none"
 	} else {
@@ -709,7 +722,10 @@ func (u *universe) mutate(g *rng, c *genCase, o *object.Object, payload []byte, 
 			w.Rules = []ecRule{{2, 1}}
 		}
 		reseal()
-	case "sys_payload":
+	case "sys_payload", "sys_payload_tomb":
+		if m == "sys_payload_tomb" { // payload > 0 and the tombstone verifier says no as well
+			w.TombOK = false
+		}
 		if c.kind == "tomb" || c.kind == "lock" {
 			payload = []byte{1, 2, 3}
 			c.stream = payload
@@ -767,7 +783,10 @@ func (u *universe) mutate(g *rng, c *genCase, o *object.Object, payload []byte, 
 			o.SetPayloadSize(uint64(len(payload)))
 			reseal()
 		}
-	case "link_empty":
+	case "link_empty", "link_empty_split":
+		if m == "link_empty_split" { // empty payload and the split verifier says no as well
+			w.SplitOK = false
+		}
 		if c.kind == "link" {
 			payload = nil
 			c.stream = nil
@@ -850,6 +869,15 @@ func (u *universe) mutate(g *rng, c *genCase, o *object.Object, payload []byte, 
 			c.stream = bytes.Clone(payload)
 			c.stream[g.n(len(payload))] ^= 1
 		}
+	case "stream_plus1":
+		// exactly one byte more than declared, and that byte is a chunk of its own
+		c.stream = append(bytes.Clone(payload), randPayload(g, 1)...)
+		c.chunks = append(chunking(g, payload), c.stream[len(payload):])
+	case "stream_exact1":
+		// exactly the declared size, the last byte is a chunk of its own
+		if len(payload) > 0 {
+			c.chunks = append(chunking(g, payload[:len(payload)-1]), payload[len(payload)-1:])
+		}
 	case "hdr_payload":
 		// handled by the runner: the header object itself carries a payload chunk
 	}
@@ -868,7 +896,7 @@ func rebuildWithoutChecksum(o *object.Object) object.Object {
 }
 
 // EC part objects in a container with EC rules
-func (u *universe) genECPart(g *rng, c *genCase, cnr cid.ID, signer int) *genCase {
+func (u *universe) genECPart(g *rng, c *genCase, cnr cid.ID, signer int, forceMut string) *genCase {
 	w := c.w
 	w.Rules = [][]ecRule{{{2, 1}}, {{3, 1}, {2, 2}}, {{1, 1}, {2, 1}}}[g.n(3)]
 	w.RepN = g.n(2)
@@ -895,8 +923,12 @@ func (u *universe) genECPart(g *rng, c *genCase, cnr cid.ID, signer int) *genCas
 	partPl := partsByRule[ri][pi]
 	muts := []string{"none", "none", "none", "none", "ec_mix", "ec_mix_first", "ec_part_oob", "ec_rule_oob", "ec_idx_nan", "ec_idx_neg", "ec_idx_plus", "ec_only_rule", "ec_only_part",
 		"ec_size", "ec_hash", "ec_parent_nohash", "ec_parent_badattr", "ec_signed", "ec_session", "ec_no_parent", "ec_parent_ver", "ec_parent_cnr",
-		"ec_parent_owner", "ec_parent_epoch", "ec_no_cs", "ec_wrong_part", "stream_more", "stream_less", "stream_diff", "id", "attr_after", "store_fail", "quota", "ver_old", "exp_past", "parent_id", "parent_sig"}
+		"ec_parent_owner", "ec_parent_epoch", "ec_no_cs", "ec_wrong_part", "stream_more", "stream_less", "stream_diff", "id", "attr_after", "store_fail", "quota", "ver_old", "exp_past", "parent_id", "parent_sig",
+		"stream_plus1", "stream_exact1"}
 	m := muts[g.n(len(muts))]
+	if forceMut != "" {
+		m = forceMut
+	}
 	c.mut = m
 	switch m {
 	case "ec_parent_nohash":
@@ -1038,6 +1070,13 @@ func (u *universe) genECPart(g *rng, c *genCase, cnr cid.ID, signer int) *genCas
 		if len(partPl) > 0 {
 			c.stream = bytes.Clone(partPl)
 			c.stream[g.n(len(partPl))] ^= 1
+		}
+	case "stream_plus1":
+		c.stream = append(bytes.Clone(partPl), randPayload(g, 1)...)
+		c.chunks = append(chunking(g, partPl), c.stream[len(partPl):])
+	case "stream_exact1":
+		if len(partPl) > 0 {
+			c.chunks = append(chunking(g, partPl[:len(partPl)-1]), partPl[len(partPl)-1:])
 		}
 	}
 	if uint64(len(c.stream)) > w.MaxSize {
